@@ -281,6 +281,17 @@ Proof.
 Qed.
 
 
+(* ---------------- the invariant between packets ---------------- *)
+Record OInv (st : rstate) (acc : list vitem) : Prop := {
+  o_suffix : exists done, L0 = done ++ r_old st
+             /\ (forall s, In s done -> exists it0, In it0 acc /\ compare_path (st_path s) (vpath it0) <> Gt);
+  o_gt : forall s it0, In s (r_old st) -> In it0 acc -> compare_path (vpath it0) (st_path s) = Lt;
+  o_alive : live st = true -> r_closed st = false ->
+       prist (r_fs st) (r_rmdir st) (r_old st) /\ rm_ok (r_rmdir st) acc (r_old st)
+}.
+
+Definition NInv (st : rstate) (acc : list vitem) : Prop := GInv D f0 tmps0 st acc /\ OInv st acc.
+
 (* ================= one STAT of the stream against the unread old listing ================= *)
 Section Feed.
 Variables (stin : rstate) (acc : list vitem) (s2 : stat) (v' : list ventry) (seen' : list bytes) (idx : nat).
@@ -294,6 +305,18 @@ Hypothesis Hspec : spec_ok (map citem_of acc) (citem_of it).
 Hypothesis HI' : Inv (map ce v') (map citem_of acc').
 Hypothesis Hparent : exists l, In (removelast (comps p), l) (map ce v').
 Hypothesis Hacc : Forall (fun it0 => ok_path (vpath it0) = true /\ cleanp (vpath it0)) acc.
+(* what the state before this STAT provides: the parent directory, the source of a hard link,
+   the directories that stay on the stack and the seen list are reached without meeting a symlink *)
+Hypothesis Hpar0 : removelast (comps p) = [] \/
+  exists q, In q (accpaths acc) /\ comps q = removelast (comps p) /\ safe (r_fs stin) D (comps q).
+Hypothesis Hlink0 : hardlink_branch s2 = true ->
+  In (st_linkname s2) (accpaths acc) /\ safe (r_fs stin) D (comps (st_linkname s2)).
+Hypothesis Hstack0 : forall ds l, In (ds, l) v' ->
+  pcomps ds = [] \/ (exists q, In q (accpaths acc) /\ comps q = pcomps ds /\ safe (r_fs stin) D (comps q))
+  \/ (pcomps ds = comps p /\ solid s2 = true).
+Hypothesis Hseen0 : forall q, In q seen' ->
+  (In q (accpaths acc) /\ safe (r_fs stin) D (comps q)) \/ (q = p /\ solid s2 = true).
+Hypothesis Hclosed0 : r_closed stin = false.
 
 (* the removed-directory prefix while the entry is being diffed *)
 Definition rmJ (rm : bytes) (old : list stat) : Prop :=
@@ -307,6 +330,7 @@ Record J (st : rstate) (old done : list stat) : Prop := {
   j_vstk : r_vstk st = v';
   j_seen : r_seen st = seen';
   j_pipes : forall id pp, In (id, pp) (r_pipes st) -> In (pp_path pp) (accpaths acc);
+  j_closed : r_closed st = false;
   j_split : L0 = done ++ old;
   j_done : forall s, In s done -> compare_path (st_path s) p = Lt;
   j_gt : forall s it0, In s old -> In it0 acc -> compare_path (vpath it0) (st_path s) = Lt;
@@ -341,11 +365,12 @@ Lemma suppressed_step st f1 rest done :
   J st (f1 :: rest) done -> compare_path (st_path f1) p = Lt ->
   J (set_diff st rest (r_rmdir st)) rest (done ++ [f1]).
 Proof.
-  intros Jv Hlt. pose proof (j_base _ _ _ Jv) as G. constructor; cbn [r_vstk r_seen r_pipes set_diff r_fs r_rmdir].
+  intros Jv Hlt. pose proof (j_base _ _ _ Jv) as G. constructor; cbn [r_vstk r_seen r_pipes r_closed set_diff r_fs r_rmdir].
   - apply (GBase_quiet D f0 tmps0 st _ acc' b0 G); try (unfold b0; lia); simpl.
     + apply step_refl; [apply (g_wf D f0 tmps0 st acc' G)|apply (g_next D f0 tmps0 st acc' G)].
     + repeat split.
     + apply G.
+  - apply Jv.
   - apply Jv.
   - apply Jv.
   - apply Jv.
@@ -396,12 +421,13 @@ Proof.
   pose proof (apply_change_inv D root f0 tmps0 tmp_ok idx 2 q1 f1 st0 acc' G0 Hpre) as X.
   change {| c_root := root; c_cwd := D |} with c in X. cbv zeta in X.
   set (st1 := apply_change c idx 2 q1 f1 st0) in *.
-  destruct X as (G1 & (F1 & F2 & F3 & F4 & _) & Hpost).
+  destruct X as (G1 & (F1 & F2 & F3 & F4 & F5 & _) & Hpost).
   constructor.
   - exact G1.
   - rewrite F1. apply Jv.
   - rewrite F2. apply Jv.
   - unfold st1. rewrite apply_change_del_pipes. apply (j_pipes _ _ _ Jv).
+  - rewrite F5. apply Jv.
   - rewrite (j_split _ _ _ Jv), <- app_assoc. reflexivity.
   - intros s Hs. apply in_app_or in Hs. destruct Hs as [Hs|[<-|[]]]; [apply (j_done _ _ _ Jv s Hs)|exact Hlt].
   - intros s it0 Hs. apply (j_gt _ _ _ Jv). right. exact Hs.
@@ -440,6 +466,105 @@ Proof.
         -- pose proof (j_gt _ _ _ Jv f1 it0 (or_introl eq_refl) Hin0) as H. fold q1 in H. rewrite E0, compare_path_refl in H. discriminate.
         -- cbn [vpath it item_of] in E0. fold p in E0. rewrite E0, compare_path_refl in Hlt. discriminate.
       * exact Hlt.
+Qed.
+
+
+Lemma it_in_acc' : In it acc'.
+Proof. unfold acc'. apply in_or_app. right. left. reflexivity. Qed.
+
+Lemma p_in_accpaths' : In p (accpaths acc').
+Proof. unfold acc'. rewrite accpaths_app. apply in_or_app. right. left. reflexivity. Qed.
+
+(* what a state in which p has been handled must provide, given what the loop-head invariant kept *)
+Lemma alive_after (st st' : rstate) :
+  r_vstk st' = v' -> r_seen st' = seen' ->
+  (forall j t, reach (r_fs st') j -> tmpname tmps0 t -> blookup t (ents (r_fs st') j) = None) ->
+  (forall q, In q (accpaths acc) -> safe (r_fs stin) D (comps q) -> safe (r_fs st') D (comps q)) ->
+  (solid s2 = true -> safe (r_fs st') D (comps p)) ->
+  alive_inv D tmps0 st'.
+Proof.
+  intros E1 E2 Htf Hkeep Hsol. constructor.
+  - exact Htf.
+  - intros ds l Hin. rewrite E1 in Hin. destruct (Hstack0 ds l Hin) as [E|[(q & Hq & Eq & Hs)|(E & Hso)]].
+    + rewrite E. exact I.
+    + rewrite <- Eq. apply Hkeep; auto.
+    + rewrite E. apply Hsol. exact Hso.
+  - intros q Hin. rewrite E2 in Hin. destruct (Hseen0 q Hin) as [(Hq & Hs)|(-> & Hso)].
+    + apply Hkeep; auto.
+    + apply Hsol. exact Hso.
+Qed.
+
+(* the path is new: everything still unread sorts after it *)
+Lemma final_add st old done :
+  J st old done -> (forall s, In s old -> compare_path p (st_path s) = Lt) ->
+  NInv (apply_change c idx 0 p s2 (set_diff st old [])) acc'.
+Proof.
+  intros Jv Hgt. pose proof (j_base _ _ _ Jv) as G.
+  set (st0 := set_diff st old []).
+  assert (G0 : GB st0 acc').
+  { apply (GBase_quiet D f0 tmps0 st st0 acc' b0 G); try (unfold b0; lia); simpl.
+    - apply step_refl; [apply (g_wf D f0 tmps0 st acc' G)|apply (g_next D f0 tmps0 st acc' G)].
+    - repeat split.
+    - apply G. }
+  assert (Hpre : live st0 = true -> change_pre D tmps0 0 st0 p s2 acc').
+  { intros L. destruct (j_live _ _ _ Jv L) as (A1 & A2 & A3 & A4).
+    unfold change_pre. cbn [r_fs st0 set_diff r_pipes].
+    split; [exact Hok|]. split; [exact Hclp|]. split.
+    - destruct Hpar0 as [E|(q & Hq & Eq & Hs)]; [rewrite E; exact I|]. rewrite <- Eq. apply A2; auto.
+    - split; [exact A1|]. split; [|split].
+      + intros _ Hhb. destruct (Hlink0 Hhb) as [Hq Hs]. destruct (acc_clean _ Hq) as [Hokl _]. split; auto.
+        pose proof (A2 _ Hq Hs) as Hs'. rewrite (split_comps _ Hokl) in Hs'. apply safe_prefix in Hs'. exact Hs'.
+      + intros id pp Hin. apply cmp_lt_not_prefix. apply accpaths_lt_p. apply (j_pipes _ _ _ Jv id pp Hin).
+      + intros _. apply p_in_accpaths'. }
+  pose proof (apply_change_inv D root f0 tmps0 tmp_ok idx 0 p s2 st0 acc' G0 Hpre) as X.
+  change {| c_root := root; c_cwd := D |} with c in X. cbv zeta in X.
+  set (st1 := apply_change c idx 0 p s2 st0) in *.
+  destruct X as (G1 & (F1 & F2 & F3 & F4 & F5 & _) & Hpost).
+  assert (Hall_unsup : live st = true -> forall s, In s old -> suppressed (r_rmdir st) (st_path s) = false).
+  { intros L s Hs. destruct (j_live _ _ _ Jv L) as (_ & _ & _ & A4).
+    destruct A4 as [->|(X & E & B1 & B2 & B3 & B4)]; [reflexivity|]. rewrite E.
+    destruct (suppressed (X ++ [sep]) (st_path s)) eqn:Es; auto. exfalso.
+    apply suppressed_below in Es.
+    apply (dead_not_below v' acc' X p HI' Hparent B3 Hok).
+    apply (between_below X p (st_path s) B4 (Hgt s Hs) Es). }
+  split.
+  - (* the global invariant *)
+    split; [exact G1|]. intros L1. destruct (Hpost L1) as (L0' & P1 & P2 & P3).
+    destruct (j_live _ _ _ Jv L0') as (A1 & A2 & A3 & A4).
+    apply (alive_after st st1).
+    + rewrite F1. apply Jv.
+    + rewrite F2. apply Jv.
+    + exact P1.
+    + intros q Hq Hs. refine (proj1 (P2 (comps q) _ _) _).
+      * apply cmp_lt_not_prefix. apply accpaths_lt_p. exact Hq.
+      * apply (acc_clean q Hq).
+      * apply (A2 q Hq Hs).
+    + apply P3. discriminate.
+  - (* the old listing *)
+    constructor.
+    + exists done. rewrite F3. cbn [r_old st0 set_diff]. split; [apply Jv|].
+      intros s Hs. exists it. split; [apply it_in_acc'|]. cbn [vpath it item_of]. fold p.
+      rewrite (j_done _ _ _ Jv s Hs). discriminate.
+    + rewrite F3. cbn [r_old st0 set_diff]. intros s it0 Hs Hin0. unfold acc' in Hin0.
+      apply in_app_or in Hin0. destruct Hin0 as [Hin0|[<-|[]]]; [apply (j_gt _ _ _ Jv s it0 Hs Hin0)|].
+      cbn [vpath it item_of]. fold p. apply (Hgt s Hs).
+    + intros L1 _. rewrite F3, F4. cbn [r_old r_rmdir st0 set_diff]. split; [|left; reflexivity].
+      destruct (Hpost L1) as (L0' & P1 & P2 & P3).
+      destruct (j_live _ _ _ Jv L0') as (A1 & A2 & A3 & A4).
+      intros s Hs _.
+      assert (Hins : In s L0) by (apply (old_in st old done s Jv Hs)).
+      destruct (old_entry s Hins) as (Hoks & Hcls & _).
+      rewrite <- (A3 s Hs (Hall_unsup L0' s Hs)).
+      refine (proj2 (P2 (comps (st_path s)) _ Hcls)).
+      intros Hpfx.
+      (* an unread entry below the new path: its parent chain is in the listing, so p would be an entry *)
+      assert (Hne : p <> st_path s) by (apply cmp_lt_ne; apply (Hgt s Hs)).
+      destruct (prefix_proper_below p (st_path s) Hok Hpfx Hne) as (y & Hy & Ey).
+      destruct (of_closed D f0 L0 OF s (comps p) y Hins Ey (comps_nonempty p) Hy) as (s' & Hs' & Es').
+      apply comps_inj in Es'.
+      rewrite (j_split _ _ _ Jv) in Hs'. apply in_app_or in Hs'. destruct Hs' as [Hd|Ho].
+      * pose proof (j_done _ _ _ Jv s' Hd) as H. rewrite Es', compare_path_refl in H. discriminate.
+      * pose proof (Hgt s' Ho) as H. rewrite Es', compare_path_refl in H. discriminate.
 Qed.
 
 End Feed.
